@@ -28,10 +28,7 @@ RULES = {
           "proven from the size clamp or a dominating guard (CSI 0 A moves by one on every ECMA-48 terminal)",
     "R5": "every transmitted graphics command is complete: a chunked kitty transmission is terminated (continuation flags m=1 ... m=0 by one-chunk "
           "look-ahead; shared with C03.R1)",
-    "R4": "line structure: in every _render_image the newline-bearing fragments are repeated exactly rendered_height - 1 times (recognised idioms), "
-          "the output does not end with one; kitty (C=1: cursor stays) ends every line with CURSOR_FORWARD % rendered_width; iterm2 sets "
-          "doNotMoveCursor=1 exactly where (is_on_konsole) it also advances the cursor itself, and otherwise pre-advances rendered_height-1 lines and comes "
-          "back with CURSOR_UP % (rendered_height-1); block ends every line with SGR_DEFAULT + newline and the output with SGR_DEFAULT",
+    "R4": 'line structure, decided on the symbolic output shape of each renderer (tiv.emit) for every case of the free conditions: the emitted text contains exactly rendered_height - 1 newlines and does not end with one; kitty (C=1: the cursor stays) ends every line with CURSOR_FORWARD % rendered_width, preceded by ERASE_CHARS iff not mix; iterm2 sends doNotMoveCursor=1 exactly on konsole, where it advances the cursor itself (CUF before every newline, CUF last), and otherwise pre-advances and returns with one CURSOR_UP of exactly the number of lines advanced (none for one line); block ends every line with SGR_DEFAULT + newline except the last',
 }
 CS, BL, KT, IT, CM = "_ctlseqs.py", "image/block.py", "image/kitty.py", "image/iterm2.py", "image/common.py"
 INTRODUCERS = {"ESC": "\x1b", "BEL": "\x07", "APC": "\x1b_", "CSI": "\x1b[", "DCS": "\x1bP", "OSC": "\x1b]", "ST": "\x1b\\", "KITTY_START": "\x1b_G", "ITERM2_START": "\x1b]1337;File="}
